@@ -53,8 +53,8 @@ LEVEL_NOTE = ("Trusted: Coq kernel, extraction, the renderer structure->source t
               "(the bases are unresolvable then; not a defect). The repairs of F3 and F6 have landed (the translator finds the Accumulated shape); the theorems for the two older shapes "
               "stay so that a tree that goes back to them is still described. The helper names may reach a module by any one-hop spelling (direct, module, module alias, `as` alias: all recognised), "
               "through a re-exporting module of the package or a star import (finding F10 for dataclass / field / KW_ONLY; ClassVar stays recognised, by its last name - translated from Expr.is_classvar); "
-              "__post_init__ bodies and imports inside class bodies are rendered (no model counterpart needed: neither is a field for either side); while the tree still asks an imported class-body name "
-              "for its kind (translated flag skips_alias_members = false) a raised load on such a class is the known finding F11.")
+              "__post_init__ bodies and imports inside class bodies are rendered (no model counterpart needed: neither is a field for either side; the translated flag skips_alias_members is proved true, "
+              "a load that raises is a violation again since the repair of F11).")
 MODEL = ("Model.C18_main", "run_C18")
 MODEL_TARGETS = ["Model/C18_main.vo"]
 COQ_TARGETS = ["Proofs/C18_dataclass.vo", "Proofs/C18_modes.vo", "Proofs/C18_machine.vo", "Proofs/C18_presented.vo", "Proofs/C18_top.vo", "Proofs/C18_order.vo", "Proofs/C18_layout.vo"]
@@ -1106,11 +1106,6 @@ def check_tables(ctx, tables, stream, use_model=True, mirror=False, loads=None, 
             if load is not None:
                 load["prev"].append({"table": case["table"], "split": split})
         except Exception as e:  # noqa: BLE001
-            if type(e).__name__ == "AliasResolutionError" and body_imports(table) and not gen_flag("skips_alias_members"):
-                # finding C18-F11: the tree under test still asks an imported class-body name for its kind
-                ctx.observe("outcome", "load raises: C18-F11")
-                ctx.property_failure(case, {"griffe.load raised": f"{type(e).__name__}: {e}", "classes with an import in the body": body_imports(table)}, finding="C18-F11")
-                continue
             ctx.tie_failure("harness", "griffe.load raised on a generated hierarchy", f"{type(e).__name__}: {e}", case)
             ctx.property_failure(case, {"griffe.load raised": f"{type(e).__name__}: {e}"})
             continue
@@ -1328,6 +1323,10 @@ WITNESSES = {
 }
 # witnesses of the repaired defects (former F1, F5, F8, F9): corpus cases that must PASS now; no classifier is left for them
 REPAIRED = {
+    # style 4: the un-annotated attribute at position 0 is rendered as `from os import path as f0` inside the class body
+    "former C18-F11 (import inside the body of a dataclass)": [{"dec": (None, None), "body": [("attr", 0, "none", ("plain",)), ("attr", 1, "plain", ("plain",))],
+                                                                "hw": None, "bases": [], "style": 4},
+                                                               {"dec": (None, None), "body": [("attr", 2, "plain", ("plain",))], "hw": None, "bases": [0], "style": 0}],
     "former C18-F1 (init=False)": [K((False, None), [A(0, v=("plain",))]), K(D0, [A(1, v=("plain",))], [0])],
     "former C18-F5 (field(kw_only=False))": [K((None, True), [A(0, v=("field", None, False, True, False, False)), A(1, v=("plain",))]),
                                              K(D0, [A(2), A(91, "kwonly"), A(3, v=("field", None, False, False, False, True)), A(4)], [])],
@@ -1350,17 +1349,6 @@ def replay_witnesses(ctx):
     cv2, _ = cpython_view(render(t2)[0], 2)
     if not (cv2 is not None and shadowed(t2, sp2) == {0} and norm_member(gv2[0][0]) != norm_member(cv2[0][0])):
         ctx.tie_failure("harness", "the re-export witness of C18-F10 no longer reproduces", {"griffe": gv2[0][0], "cpython": cv2 and cv2[0][0]}, case_json(t2, sp2))
-    # C18-F11: an import inside the body of a dataclass (style 4: the statement at position 0 is rendered as an import)
-    t11 = [{**K(D0, [A(0, "none", ("plain",)), A(1, v=("plain",))]), "style": 4}]
-    if not gen_flag("skips_alias_members"):
-        try:
-            griffe_view(ctx, t11, render(t11)[1], None)
-            raised = False
-        except Exception as e:  # noqa: BLE001
-            raised = type(e).__name__ == "AliasResolutionError"
-        ctx.witness("C18-F11", bool(body_imports(t11)) and raised)
-    else:
-        check_tables(ctx, [t11], "corpus: witnesses of repaired defects (must pass)")
     fixed = REPAIRED_BY_MODE[current_mode()]
     for fid, (table, i) in WITNESSES.items():
         mros = cpython_mros(table)
